@@ -159,6 +159,23 @@ CHECKS = {
         technique="TLA+ canonical-encoding equivalence + TLC-judged disassemble/assemble round trips (code->spec)",
         engine="isa",
     ),
+    "C10": dict(
+        category="model_checking",
+        text="AsmLayout.tla defines Layout(prog), the reference layout of an abstract program (SECTION code/data/bss, .ORG number|label, labels, sized "
+             "data and instruction statements, page-local jumps): addresses, symbol table, bss-follows-data, cross-page rejection. TLC checks "
+             "Contiguous, LabelsPointAtNext and BssFollowsData of Layout over every palette program of <= 4 statements (30941 states; <= 5 thorough). "
+             "spec->code: the well-formed palette programs (all of <= 3 statements, a seeded fifth of the 4-statement ones) are concretised and "
+             "assembled by the real Assembler; code->spec: 1500 (thorough 20000) seeded grammar-based programs of 4-50 statements with forward / "
+             "backward label references in immediates, absolute addresses, data directives, near and far jumps, sections and non-overlapping .ORGs. "
+             "A logging subclass records pass-one sizes and pass-two addresses/bytes; TLC (JudgeLayout) judges every clause family separately: "
+             "Accepted / PageRuleRejects, SizesAgree, LabelAddress, Contiguous, Compositional (bytes = the statement assembled alone with symbols "
+             "replaced by values), Placed (output segments; bss emits nothing), Stateless (same object again, after another program, fresh object).",
+        design_ref="DESIGN.md section 4 (C10)",
+        note="Trusted: the LoggingAssembler subclass in checks/c10.py (wraps two methods, nothing in /repo is touched), bincopy, TLC. Five open known "
+             "findings keyed by clause, statement kind, section and structural tags (refbss, orgsym, labdir).",
+        technique="TLA+ layout model checked by TLC, its programs assembled by the real assembler (spec->code) + TLC-judged logs of grammar-based programs (code->spec)",
+        engine="asm",
+    ),
     "C11": dict(
         category="model_checking",
         text="MemoryBus.tla (memory as a function from alias classes to bytes; Store/Load of 1-3 bytes; ReadAfterWrite, Frame, "
@@ -240,6 +257,7 @@ NOT_YET = {
 }
 
 ENGINES = [
+    dict(name="asm", path="spec/asm", serves_properties=["C10"], kind_free_text="TLA+ two-pass assembly layout reference + judge of recorded assemblies"),
     dict(name="mem", path="spec/mem", serves_properties=["C11"], kind_free_text="TLA+ memory bus over alias classes + trace spec"),
     dict(name="kbd", path="spec/kbd", serves_properties=["C14"], kind_free_text="TLA+ keyboard matrix automaton + monitors + trace spec"),
     dict(name="tables", path="spec/tables", serves_properties=["C17"], kind_free_text="TLA+ equalities over dumped tables/constants"),
